@@ -474,7 +474,10 @@ class Patches:
             REC.append(ent)
             w.openssl_calls += 1
             try:
-                r = orig_run(command, timeout)
+                # the code's own limit (10 s, recorded above) is not enforced here: on an overloaded box an
+                # openssl run can take longer, and the child it would leave behind keeps writing into the cache;
+                # the TimeoutExpired branch is exercised by the crypto-free `gen` cases instead
+                r = orig_run(command, max(timeout, 120))
             except subprocess.TimeoutExpired:
                 ent['rc'] = 'timeout'
                 raise
@@ -1408,7 +1411,8 @@ def _corpus():
         e2e(plugins=['F']), e2e(plugins=['T', 'F', 'T'], sit='selfsigned'), e2e(plugins=['T', 'N']),
         e2e(plugins=['N', 'T']), e2e(intercept=0), e2e(host='127.0.0.1'), e2e(host='[::1]'),
         e2e(host='[::1]', insecure=1), e2e(host='127.0.0.1', sit='selfsigned'),
-        e2e(sit='garbage'), e2e(client='distrust'), e2e(client='gone'), e2e(client='hangup'),
+        e2e(sit='garbage'), e2e(sit='selfsigned', junk='160303000a0102030405060708090a'), e2e(sit='wrongname', junk='00' * 64),
+        e2e(client='distrust'), e2e(client='gone'), e2e(client='hangup'),
         e2e(openssl='/bin/false'), e2e(hosthdr='other.example:443'), e2e(hosthdr='other.example:443', plugins=['F']),
         e2e(req={'m': 'POST', 'path': '/submit', 'h': ['Host: example.org', 'Proxy-Authorization: Basic eDp5',
                                                       'Content-Type: text/plain'], 'b': 'x' * 3000},
@@ -1564,7 +1568,7 @@ def _generate(rng, tier):
                 yield e2e(sit=sit, insecure=insecure, intercept=0, host=rng.choice(hosts))
                 yield e2e(sit=sit, insecure=insecure, openssl='/bin/false')
                 yield e2e(sit=sit, insecure=insecure, hosthdr='other.example:443', host=rng.choice(NAMES))
-        n = 250
+        n = 600
     for _ in range(n):
         host = rng.choice(NAMES + [_rand_name(rng), _rand_name(rng)] + (['127.0.0.1', '[::1]', '192.0.2.7'] if big else []))
         req = _rand_req(rng, host)
@@ -1574,6 +1578,8 @@ def _generate(rng, tier):
         c['cuts'] = _rand_cuts(rng, len(inner_request(c)))
         if rng.random() < 0.2:
             c['hosthdr'] = rng.choice(['other.example:443', 'other.example', host])
+        if c['sit'] != 'trusted' and rng.random() < 0.3:
+            c['junk'] = bytes(rng.randrange(256) for _ in range(rng.choice([1, 5, 100]))).hex()
         yield c
 
 
